@@ -42,6 +42,20 @@ CLAIMED["C14"] = dict(
          "excluded.",
     ref="3 C14, 2.8")
 
+CLAIMED["C16"] = dict(
+    category="other",
+    technique="control-dependence analysis of every rejection throw (typed AST), normal-form matching of guard "
+              "conditions against the documented list, exit-status dataflow",
+    text="Decides the path/shape clauses: every EInvalidInput/EPhysicalProblem throw of the model classes is "
+         "control-dependent on the force flag being off, and its forced branch warns or records a problem "
+         "(never silent); each of the 30 documented rejection conditions has a throw site guarded by exactly "
+         "that comparison with the documented class, in a function the constructors/calculators call on every "
+         "path; the program's exit status is EXIT_FAILURE after a caught error and equals have_problem() in "
+         "the MSSM; the writer runs only after the reader returned; the C error codes map the classes.",
+    note=TRUST + "The list of documented conditions is frozen in the checker (rules_c16.DOCUMENTED). Not decided: "
+         "that a result reported without error/problem/warning is a finite number (numerical).",
+    ref="3 C16, Appendix A")
+
 NOT_APPLICABLE = {
     "C03": "numerical agreement of one-loop results with an independent higher-precision evaluation over all "
            "parameter points: depends on eigen-decomposition values; no code-shape clause of its own "
